@@ -220,9 +220,11 @@ impl<'de, R: std::io::BufRead> ReadSlice<'de> for ReaderRead<R> {
 		let buffer = self.reader.fill_buf().map_err(DeError::io)?;
 		match buffer.get(0..n) {
 			Some(slice) => {
-				let produced = read_visitor.visit(slice)?;
+				// Consume also when the visitor fails, as reading from a slice does (and as the
+				// branch below does): what was read is then the same whatever the reader
+				let produced = read_visitor.visit(slice);
 				self.reader.consume(n);
-				Ok(produced)
+				produced
 			}
 			None => {
 				if n > self.max_alloc_size {
